@@ -443,6 +443,90 @@ def gen_C05(tier, seed, unit, nunits):
                 out.append(req('fcv_to_checked', s, n, f, x, fmt)); out.append(req('fcv_to_overflowing', s, n, f, x, fmt))
     return {'conv': out}
 
+def treq(op, S, x, D=None, *extra):
+    if D is None:
+        return req(op, S[0], S[1], S[2], x)
+    return req(op, S[0], S[1], S[2], x, D[0], D[1], D[2], *extra)
+
+def math_reqs(tier, seed, unit, nunits, ops, tag):
+    out = []
+    import math
+    work = []
+    if 'sqrt' in ops:
+        work += [('t_sqrt', S, D) for S, D in G.MATH_ANY + G.MATH_UNSIGNED_D]
+    for o in ('log2', 'ln', 'exp', 'pow'):
+        if o in ops:
+            work += [('t_' + o, S, D) for S, D in G.MATH_SIGNED]
+    if 'powi' in ops:
+        work += [('t_powi', S, D) for S, D in G.MATH_ANY]
+    for o in ('sin', 'cos', 'tan'):
+        if o in ops:
+            work += [('t_' + o, T, None) for T in G.TRIG]
+    for (op, S, D) in unit_layouts(work, unit, nunits):
+        rng = random.Random(f'{seed}/{tag}/{op}/{S}/{D}')
+        s, n, f = S
+        one = 1 << f
+        lo, hi = G.rng_range(s, n)
+        k = scale(tier, 1000, 12000)
+        if op in ('t_sqrt', 't_log2', 't_ln'):
+            for x in G.math_vals(rng, s, n, f, k):
+                out.append(treq(op, S, x, D))
+        elif op == 't_exp':
+            vals = set(G.math_vals(rng, s, n, f, k // 2))
+            for _ in range(k):
+                # the whole range where exp can return Ok: |x| up to ~ (int bits) * ln 2
+                lim = (D[1] - D[2]) * 0.7
+                v = int(rng.uniform(-lim - 2, lim + 2) * one)
+                vals.add(G.clip(s, n, v))
+            for x in sorted(vals):
+                out.append(treq(op, S, x, D))
+        elif op == 't_pow':
+            xs = G.math_vals(rng, s, n, f, 40)
+            for _ in range(k):
+                x = rng.choice(xs) if rng.random() < 0.3 else G.clip(s, n, int(rng.uniform(0.01, 40) * one))
+                y = rng.choice([0, one, -one, 2 * one, one >> 1, 3 * one]) if rng.random() < 0.3 else G.clip(s, n, int(rng.uniform(-8, 8) * one))
+                out.append(treq(op, S, x, D, y))
+        elif op == 't_powi':
+            xs = G.math_vals(rng, s, n, f, 40)
+            edge_n = [0, 1, -1, 2, -2, 3, 7, -7, 31, 32, 33, 63, 64, 127, 128, 1000, -1000]
+            big_n = [2147483647, -2147483647, -2147483648, 65536, -65536]
+            for _ in range(k):
+                x = rng.choice(xs) if rng.random() < 0.4 else G.clip(s, n, int(rng.uniform(-3, 3) * one))
+                nn = rng.choice(edge_n) if rng.random() < 0.6 else rng.randint(-200, 200)
+                out.append(treq(op, S, x, D, nn))
+            for x in (0, 2 * one, G.clip(s, n, -2 * one), 3 * one, hi, lo, 10 * one):
+                for nn in big_n:
+                    out.append(treq(op, S, x, D, nn))
+        else:
+            vals = {0, 1, -1, hi, lo, hi - 1, lo + 1, one, -one}
+            lim = 100 if op == 't_tan' else 200
+            for _ in range(k):
+                r = rng.random()
+                if r < 0.5:
+                    v = int(rng.uniform(-lim, lim) * one)
+                elif r < 0.8:
+                    # neighbourhoods of k*pi/2 (and k*pi/4 for tan)
+                    q = rng.randint(-int(lim / (math.pi / 4)), int(lim / (math.pi / 4)))
+                    v = int(q * (math.pi / 4) * one) + rng.randint(-4, 4) * (1 << max(0, f - 23)) + rng.randint(-3, 3)
+                elif r < 0.9:
+                    v = rng.randint(-lim * one, lim * one) >> rng.randint(0, f) << rng.randint(0, 3)
+                else:
+                    v = G.rand_val(rng, s, n, f, [0, 1, hi, lo])
+                vals.add(G.clip(s, n, v))
+            for x in sorted(vals):
+                out.append(treq(op, S, x))
+    if unit == 0:
+        out.append('t_consts 1 32 23 0')
+    return {'math': out}
+
+ALL_MATH = ['sqrt', 'log2', 'ln', 'exp', 'pow', 'powi', 'sin', 'cos', 'tan']
+def gen_C12(tier, seed, unit, nunits): return {'math': G.corpus('C12') * (unit == 0) + math_reqs(tier, seed, unit, nunits, ALL_MATH, 'C12')['math']}
+def gen_C13(tier, seed, unit, nunits): return {'math': G.corpus('C13') * (unit == 0) + math_reqs(tier, seed, unit, nunits, ['sqrt'], 'C13')['math']}
+def gen_C14(tier, seed, unit, nunits): return {'math': G.corpus('C14') * (unit == 0) + math_reqs(tier, seed, unit, nunits, ['log2', 'ln'], 'C14')['math']}
+def gen_C15(tier, seed, unit, nunits): return {'math': G.corpus('C15') * (unit == 0) + math_reqs(tier, seed, unit, nunits, ['exp', 'pow', 'powi'], 'C15')['math']}
+def gen_C16(tier, seed, unit, nunits): return {'math': G.corpus('C16') * (unit == 0) + math_reqs(tier, seed, unit, nunits, ['sin', 'cos', 'tan'], 'C16')['math']}
+def gen_C17(tier, seed, unit, nunits): return {'math': G.corpus('C17') * (unit == 0) + math_reqs(tier, seed, unit, nunits, ['sqrt', 'log2', 'ln', 'exp', 'pow', 'sin', 'cos', 'tan'], 'C17')['math']}
+
 PROPS = {
     'C01': dict(lean_modules=['SfxProps.C01'], bins=['arith'], profiles=['chk', 'rel'], gen=gen_C01, thorough_all_fracs=True),
     'C06': dict(lean_modules=['SfxProps.C06'], bins=['arith'], profiles=['chk', 'rel'], gen=gen_C06, thorough_all_fracs=True),
@@ -457,5 +541,11 @@ PROPS = {
     'C03': dict(lean_modules=['SfxProps.C03'], bins=['conv'], profiles=['rel'], gen=gen_C03),
     'C04': dict(lean_modules=['SfxProps.C04'], bins=['conv'], profiles=['chk', 'rel'], gen=gen_C04),
     'C05': dict(lean_modules=['SfxProps.C05'], bins=['conv'], profiles=['chk', 'rel'], gen=gen_C05),
+    'C12': dict(lean_modules=['SfxProps.C12'], bins=['math'], profiles=['chk', 'rel'], gen=gen_C12),
+    'C13': dict(lean_modules=['SfxProps.C13'], bins=['math'], profiles=['rel'], gen=gen_C13, oracle=True),
+    'C14': dict(lean_modules=['SfxProps.C14'], bins=['math'], profiles=['rel'], gen=gen_C14, oracle=True),
+    'C15': dict(lean_modules=['SfxProps.C15'], bins=['math'], profiles=['rel'], gen=gen_C15, oracle=True),
+    'C16': dict(lean_modules=['SfxProps.C16'], bins=['math'], profiles=['rel'], gen=gen_C16, oracle=True),
+    'C17': dict(lean_modules=['SfxProps.C17'], bins=['math'], profiles=['rel'], gen=gen_C17),
     'C02': dict(lean_modules=['SfxProps.C02'], bins=['arith'], profiles=['chk', 'rel'], gen=gen_C02, thorough_all_fracs=True),
 }
